@@ -65,9 +65,9 @@ open_("C12", ["C12|effect-in-process|Get:*|*|fault", "C12|effect-in-process|GetA
 open_("C13", ["C13|call-result|*|KV/*|*", "C13|obs-mismatch|SCard:wrong-value|KV/*|*", "C13|obs-mismatch|SIsMember:wrong-value|KV/*|*", "C13|obs-mismatch|SMembers:extra|KV/*|*", "C13|obs-mismatch|SUnionByOneBucket:extra|KV/*|*",
               "C13|obs-mismatch|LRange:extra|KV/*|*", "C13|obs-mismatch|LSize:wrong-value|KV/*|*", "C13|obs-mismatch|LPeek:wrong-value|KV/*|*", "C13|obs-mismatch|RPeek:wrong-value|KV/*|*"],
       "calls inside a write transaction read the committed indexes only: Get/scans/LRange/SMembers/ZScore do not see earlier writes of the same transaction, a second pop returns the same element again, LSet/LTrim/LRem/SMove are validated against the state at the start of the transaction (and may become no-ops at commit)")
-open_("C17", ["C17|reopen-diff|*:err-for-ok|K*/F|*", "C17|final-state|Get:wrong-value|K*/F|*", "C17|not-serializable|history:Get|K*/F|*", "C17|data-race|race:*(*DB).Merge*|*|*", "C17|data-race|race:runtime-fatal*|*|*", "C17|data-race|race:*(*DB).getPendingMergeEntries*|*|*", "C17|data-race|race:*(*DB).reWriteData*|*|*",
+open_("C17", ["C17|reopen-diff|*:err-for-ok|K*/F|*", "C17|final-state|Get:wrong-value|K*/F|*", "C17|not-serializable|history:Get|K*/F|*", "C17|data-race|race:*(*DB).Merge*|*|*", "C17|data-race|race:runtime-fatal*|*|*", "C17|data-race|race:panic*|*|*", "C17|data-race|race:*(*DB).getPendingMergeEntries*|*|*", "C17|data-race|race:*(*DB).reWriteData*|*|*",
                "C17|data-race|race:*(*DB).getRecordFromKey*|*|*", "C17|data-race|race:*(*DB).isFilterEntry*|*|*", "C17|data-race|race:*(*DB).getMaxFileIDAndFileIDs*|*|*"],
-      "Merge is not isolated from concurrent transactions: it reads the indexes without the lock and rewrites entries it selected earlier, so an Update that commits while Merge runs can be overwritten by the older value, or (Merge of segments in which nothing is live, one preemption) be missing after the next Open (also reported by the race detector: Merge vs Commit/buildBPTreeIdx/UpdateRecord)")
+      "Merge is not isolated from concurrent transactions: it reads the indexes without the lock and rewrites entries it selected earlier, so an Update that commits while Merge runs can be overwritten by the older value, or (Merge of segments in which nothing is live, one preemption) be missing after the next Open (also reported by the race detector: Merge vs Commit/buildBPTreeIdx/UpdateRecord; in the free-running pass also as a Go runtime 'concurrent map read and map write' abort or as a panic inside a concurrent Commit, which leaves the database lock held)")
 open_("C15", ["C15|merge-changed-reads|L*|KV/*|*", "C15|merge-changed-reads-after-reopen|L*|KV/*|*", "C15|merge-changed-reads|RPeek:*|KV/*|*", "C15|merge-changed-reads-after-reopen|RPeek:*|KV/*|*",
                "C15|post-merge-write-lost-on-reopen|L*|KV/*|*", "C15|post-merge-write-lost-on-reopen|RPeek:*|KV/*|*", "C15|obs-mismatch|L*|KV/*|merge*", "C15|obs-mismatch|RPeek:*|KV/*|merge*"],
       "Merge does not preserve lists: the rewrite transaction re-applies the surviving pushes to the in-memory list (elements duplicated in the running process), drops LSet/LTrim/LRem/pop records but keeps every push whose value still occurs, so after reopen the list differs or is gone")
